@@ -74,6 +74,18 @@ structure LoopState where
 
 def LoopState.init : LoopState := { last := 0, currentLine := 1, col := 1, text := [], line := 1 }
 
+/-- `'\n'` -/
+abbrev nl : Str := [10]
+/-- `'--> '` -/
+abbrev arrow : Str := [45, 45, 62, 32]
+/-- `'    '` -/
+abbrev pad : Str := [32, 32, 32, 32]
+/-- `'^'` -/
+abbrev caret : Str := [94]
+
+example : nl = "\n".toStr ∧ arrow = "--> ".toStr ∧ pad = "    ".toStr ∧ caret = "^".toStr := by
+  decide
+
 /-- `' ' * n` (the empty string for `n ≤ 0`). -/
 def spaces (n : Int) : Str := List.replicate n.toNat 32
 
@@ -83,12 +95,12 @@ def slice (p : Str) (a b : Nat) : Str := (p.take b).drop a
 /-- The tail of the loop body, after the three-way branch has chosen `indent`, `offset`, `col`. -/
 def emit (st : LoopState) (indent linetext : Str) (offset : Option Int) (col mend : Nat) :
     LoopState :=
-  let text1 := if st.text.length ≠ 0 then st.text ++ ["\n".toStr] else st.text
+  let text1 := if st.text.length ≠ 0 then st.text ++ [nl] else st.text
   let text2 := text1 ++ [indent ++ linetext]
   match offset with
   | some off =>
     { last := mend, currentLine := st.currentLine + 1, col := col,
-      text := text2 ++ ["\n".toStr, spaces ((col : Int) + off) ++ "^".toStr],
+      text := text2 ++ [nl, spaces ((col : Int) + off) ++ caret],
       line := st.currentLine }
   | none =>
     { last := mend, currentLine := st.currentLine + 1, col := col, text := text2, line := st.line }
@@ -101,10 +113,10 @@ def step (pattern : Str) (index : Nat) (st : LoopState) (m : Match) : LoopState 
   if mend - mstart = 0 ∧ st.text.length = 0 then
     emit st [] linetext (some (-1)) (index - st.last + 1) mend
   else if (st.last ≤ index ∧ index < mend) ∨ (mend - mstart = 0 ∧ index = mend) then
-    emit st "--> ".toStr linetext (some ((if index > mstart then -1 else 0) + 3))
+    emit st arrow linetext (some ((if index > mstart then -1 else 0) + 3))
       (index - st.last + 1) mend
   else
-    emit st "    ".toStr linetext none st.col mend
+    emit st pad linetext none st.col mend
 
 /-- `get_pattern_context(pattern, index)` = `(context, line, col)`. -/
 def getPatternContext (pattern : Str) (index : Nat) : Str × Nat × Nat :=
